@@ -45,8 +45,8 @@ MODES = ('stacked', 'collapsed', 'root-only')
 
 
 def plan(tier, seed):
-    n = 20 if tier == 'quick' else 900
-    shards = 12 if tier == 'quick' else 40
+    n = 60 if tier == 'quick' else 900
+    shards = 16 if tier == 'quick' else 40
     specs = [{'kind': 'docs', 'docs': n, 'dshard': s} for s in range(shards)]
     specs.append({'kind': 'mapper', 'sequences': 300 if tier == 'quick' else 6000})
     return specs
